@@ -18,7 +18,7 @@ from typing import Any
 from detsim import env, gen, minimize, parseop, rng, runner, simfs
 from detsim.observe import exc_token, observe_chart
 from detsim.runner import Discard
-from detsim.sched import HarnessError, Scheduler
+from detsim.sched import HarnessError, Scheduler, SimDeadlock, deadlock_result
 
 PROP = "C06"
 LEVEL = "exploration"
@@ -406,6 +406,10 @@ def execute(plan: dict[str, Any]) -> dict[str, Any]:
     try:
         try:
             sched.run([body_for(i) for i in range(n_clients)])
+        except SimDeadlock as e:
+            # threads / locks the library made itself, all of them scheduled by the simulator:
+            # under this schedule a call never returns (its reference does)
+            return deadlock_result(PROP, e, sched)
         except HarnessError as e:
             harness_error = str(e)
         world.drain_log()
